@@ -11,8 +11,8 @@ LEVEL_TEXT = ('Proof: 21 Coq theorems. Thin lines (12, model coq/Model/Line.v of
               'StyledPixelsIterator), for ALL lines and widths: width 1 = points() in order, width 0 / no colour draws nothing, every '
               'stroke of width >= 1 starts with exactly points() (contains the thin line), ParallelsIterator stops after <= 3w+2 '
               'parallels (termination, pixel count bound), translation equivariance. No-duplicate, distance <= w/2+2.5, <= 1 px beyond '
-              'the ends, >= w-1 wide at the middle: proved by computation in Coq for every line with |dx|,|dy| <= 24 anywhere in the plane '
-              '(= all end point pairs of the grid [-12,12]^2 and their translates) x widths 0..12 (C17_thick_grid_partial); beyond that '
+              'the ends, >= w-1 wide at the middle: proved by computation in Coq for every line with |dx|,|dy| <= 14 anywhere in the plane '
+              '(= all end point pairs of the grid [-7,7]^2 and their translates) x widths 0..9 (C17_thick_grid_partial); beyond that '
               'domain these four clauses are searched on the implementation. Both models are tied to the code by running the extracted '
               'model and the real iterators on the same inputs (pixel order included) on every run.')
 LEVEL_NOTE = ('Trusted: Coq kernel (vm_compute for the grid sweep), extraction (ExtrOcamlBasic), the OCaml/Rust drivers; the hand-written '
@@ -22,7 +22,7 @@ LEVEL_NOTE = ('Trusted: Coq kernel (vm_compute for the grid sweep), extraction (
 RULE = ('correspondence: Line::points() vs the extracted model for all lines with end points in [-R,R]^2 (R=5 quick, 9 thorough; '
         'all octants, axis-parallel, diagonal, zero length), random lines of major length 20..40000 anywhere within +-2^19 with a '
         'share of exact diagonals / ties (dmin = dmaj/2) / near-axis slopes, whole-sequence digests of lines up to 2^21 long; '
-        'Styled<Line>::pixels() (ordered) and the styled bounding box vs the model for every delta in [-R,R]^2 (R=7/12) x widths 0..9/12, '
+        'Styled<Line>::pixels() (ordered) and the styled bounding box vs the model for every delta of the grid [-R,R]^2 (R=7/12, i.e. dx,dy in [-2R,2R]) x widths 0..9/12, '
         'all end point pairs in [-3,3]^2 / [-5,5]^2 x 7 widths, random lines of length 10..2000 x widths up to 40. '
         'non-trivial = model result non-empty; distinct = distinct case lines. '
         'search p_line / p_thick: every clause of the property evaluated in exact i128 arithmetic on the real iterators; p_thick on '
@@ -34,7 +34,7 @@ ASSUMPTIONS = ['line_ok: all four coordinates within +-2^28 (so that 2*|delta| a
 TRUSTED = ['modelled, not verified: Point +/-/abs as unbounded Z operations, `as u32` of a non-negative i32, az::SaturatingAs u32->i32, '
            'i32 `/ 2` of a non-negative value as Z.quot']
 PARTIAL = ['C17_thick_grid_partial (full statement: thick_ok l w -- no duplicate pixel, distance <= w/2+2.5, <= 1 px beyond the ends, '
-           '>= w-1 wide at the middle -- for ALL lines and widths; proved for |dx|,|dy| <= 24, w <= 12 by computation)']
+           '>= w-1 wide at the middle -- for ALL lines and widths; proved for |dx|,|dy| <= 14, w <= 9 by computation)']
 
 
 def grid_lines(R):
@@ -85,9 +85,10 @@ def cases(tier, rng):
     yield J('line_walk', 2 ** 20, -2 ** 20, -2 ** 20, 1)
     # ---- thick lines: Styled<Line>::pixels(), order included; styled bounding box
     RT, WT = (7, 9) if tier == 'quick' else (12, 12)
-    for (x1, y1) in [(x, y) for x in range(-RT, RT + 1) for y in range(-RT, RT + 1)]:
+    for (x1, y1) in [(x, y) for x in range(-2 * RT, 2 * RT + 1) for y in range(-2 * RT, 2 * RT + 1)]:
         for w in range(0, WT + 1):
-            # Bresenham and ParallelsIterator are relative to start: lines from the origin in every direction ...
+            # Bresenham and ParallelsIterator are relative to start (C07_line_*_translate): every delta of the grid
+            # [-RT,RT]^2, i.e. lines from the origin to every point of [-2RT,2RT]^2 ...
             yield J('thick_pixels', 0, 0, x1, y1, w)
             yield J('line_sbb', 0, 0, x1, y1, w)
     # ... and the full grid of end point pairs on a smaller radius
